@@ -314,3 +314,82 @@ func C16_GenRec() {
 	}
 	vf.Reach("genrec")
 }
+
+// ---- the value stack nearly full
+
+// stackBandSrc: `nest` recurses (not in tail position) k levels deep, 4 value
+// stack slots per level, below `pad` pending operands; at the bottom it calls
+// either `probe` - one pass through the body of the tail-recursive function
+// with the same parameters, locals and argument expressions, the operands of
+// the self call built as an array instead of being called - or the
+// tail-recursive function itself. @L = extra locals, @P = the padded call.
+const stackBandSrc = `
+d := k
+probe := func(n, acc) { t1 := n; t2 := acc; t3 := t1 + t2; @L if n < 0 { return t3 }; return len([probe, n-1, acc+1]) - 3 }
+loop := func(n, acc) { t1 := n; t2 := acc; t3 := t1 + t2; @L if n == 0 { return acc }; return loop(n-1, acc+1) }
+nest := func(x, y) { d--; if d == 0 { return which == 0 ? probe(n, 0) : loop(n, 0) }; return 0 + nest(x, y) }
+out := @P
+res := out[len(out)-1]
+`
+
+var stackBandPads = []string{"[nest(1, 2)]", "[7, nest(1, 2)]", "[7, 7, nest(1, 2)]", "[7, 7, 7, nest(1, 2)]"}
+var stackBandLocals = []string{"", "u1 := t1; u2 := t2; u3 := t3; u4 := u1 + u2;"}
+
+func substMarks(s string, m map[byte]string) string {
+	out := ""
+	for i := 0; i < len(s); i++ {
+		if s[i] == '@' && i+1 < len(s) {
+			if r, ok := m[s[i+1]]; ok {
+				out += r
+				i++
+				continue
+			}
+		}
+		out += string(s[i])
+	}
+	return out
+}
+
+// C16_StackBand: a self tail call needs no value-stack space beyond what one
+// pass through the function body needs: at every call nesting near the
+// capacity of the 2048-slot value stack (nesting k, alignment pad: every stack
+// height in a window of 32 slots around the point where the probe stops
+// fitting) at which one pass through the body completes, the tail-recursive
+// function completes for every depth n (symbolic, 1..3) with the loop's result.
+func C16_StackBand() {
+	pad := vf.Choice("pad", len(stackBandPads))
+	loc := vf.Choice("locals", len(stackBandLocals))
+	k := int64(504 + vf.Choice("k", 8))
+	n := vf.Int64("n")
+	vf.Assume(n >= 1)
+	vf.Assume(n <= 3)
+	src := substMarks(stackBandSrc, map[byte]string{'L': stackBandLocals[loc], 'P': stackBandPads[pad]})
+	run := func(which int, depth int64) (*tengo.Compiled, error, bool) {
+		s := tengo.NewScript([]byte(src))
+		_ = s.Add("k", k)
+		_ = s.Add("which", which)
+		_ = s.Add("n", depth)
+		c, err := s.Compile()
+		vf.Assert(err == nil, "stack-band program compiles")
+		rerr, panicked, _ := RunGuarded(c)
+		return c, rerr, panicked
+	}
+	_, e0, p0 := run(0, 0)
+	if e0 != nil || p0 {
+		vf.Reach("stackband-unreachable")
+		return
+	}
+	c, en, pn := run(1, n)
+	vf.Assert(!pn && en == nil, "where one pass through the body fits on the value stack, self tail calls of any depth fit: "+firstLine(errText(en)))
+	vf.Assert(c.Get("res").Int64() == n, "result with a nearly full value stack equals the equivalent loop")
+	vf.Reach("stackband")
+}
+
+func firstLine(s string) string {
+	for i := 0; i < len(s); i++ {
+		if s[i] == '\n' {
+			return s[:i]
+		}
+	}
+	return s
+}
